@@ -159,8 +159,17 @@ let replay_run (en : bool) (tmo_us : int option) (lops : lop list) (toks : strin
                and may = is_expired tmo_z (z_of_int a0) (z_of_int o.t1) in
                if have_listener then begin
                  if live !st k then begin
-                   if closed k && not may then diff (Printf.sprintf "step%d:%s-closed-before-its-time-out" !idx (show_key k));
-                   if (not (closed k)) && must then diff (Printf.sprintf "step%d:%s-idle-beyond-time-out-not-closed" !idx (show_key k))
+                   (* "exactly one close per session end (close-session packet, expiry or receiver drop)": a close by
+                      a cleanup while the session was pushed to less than the time-out ago has none of these causes,
+                      and an idle session that a cleanup does not end misses its close *)
+                   if closed k && not may then begin
+                     diff (Printf.sprintf "step%d:%s-closed-before-its-time-out" !idx (show_key k));
+                     r.pfails <- Printf.sprintf "P_C18_close_has_a_cause(step%d:%s:closed-before-its-time-out)" !idx (show_key k) :: r.pfails
+                   end;
+                   if (not (closed k)) && must then begin
+                     diff (Printf.sprintf "step%d:%s-idle-beyond-time-out-not-closed" !idx (show_key k));
+                     r.pfails <- Printf.sprintf "P_C18_expiry_closes(step%d:%s:idle-beyond-time-out-not-closed)" !idx (show_key k) :: r.pfails
+                   end
                  end;
                  closed k
                end else begin
